@@ -117,8 +117,12 @@ def gen_part(rng, ndim, ncpu):
     if rng.random() < 0.15:
         cols = [(n, rng.choice(["d", "i"]) if t == "b" or (t == "i" and rng.random() < 0.5) else t) for n, t in cols]
     counts = [rng.choice([0, 0, 1, 2, 3, 5, 9, 30]) for _ in range(ncpu)]
-    return {"columns": [list(c) for c in cols], "counts": counts, "descriptor": True,
-            "header_lengths": [rng.choice([4, 8, 16, 32, 13, 10]), rng.choice([4, 8, 1, 6]), rng.choice([8, 8, 10, 0]), rng.choice([8, 8, 5]), rng.choice([4, 8, 2])]}
+    out = {"columns": [list(c) for c in cols], "counts": counts, "descriptor": True,
+           "header_lengths": [rng.choice([4, 8, 16, 32, 13, 10]), rng.choice([4, 8, 1, 6]), rng.choice([8, 8, 10, 0]), rng.choice([8, 8, 5]), rng.choice([4, 8, 2])]}
+    if ncpu > 1 and rng.random() < 0.2:
+        out["header_lengths_by_cpu"] = [[rng.choice([4, 8, 16, 32, 13, 10]), rng.choice([4, 8, 1, 6]), rng.choice([8, 8, 10, 0]), rng.choice([8, 8, 5]), rng.choice([4, 8, 2])]
+                                        for _ in range(rng.choice([2, 3]))]
+    return out
 
 
 SINK_COLS_CODE = [("id", "1"), ("msink", "m"), ("x", "l"), ("y", "l"), ("z", "l"), ("vx", "l t**-1"), ("vy", "l t**-1"), ("vz", "l t**-1"),
